@@ -38,8 +38,10 @@ def gen(rng, tier):
         if r < 0.5:
             ops.append("W:" + g.hx(b"%c%d\n" % (65 + n % 26, n)))
             n += 1
-        elif r < 0.58:
+        elif r < 0.54:
             ops.append("F")
+        elif r < 0.58:
+            ops.append("R")      # reopen_output while the file is still in place (a second SIGHUP): nothing may be lost
         elif r < 0.72:
             # logrotate style: somebody moves (or removes) the current file, then reopen_output
             if rng.random() < 0.8:
